@@ -95,7 +95,10 @@ def run(ctx, scale):
     cdir = os.path.join(vlib.VERIF, "corpus", "C01")
     if os.path.isdir(cdir):
         for f in sorted(os.listdir(cdir)):
-            c = json.load(open(os.path.join(cdir, f))); eval_case(ctx, c["cfg"], c["changes"], via="corpus")
+            c = json.load(open(os.path.join(cdir, f)))
+            eval_case(ctx, c["cfg"], c["changes"], via="corpus")
+            eval_case(ctx, c["cfg"], c["changes"], via="corpus", flags=(False, False, False))
+            eval_case(ctx, c["cfg"], c["changes"], via="corpus", flags=(False, False, True))
     for i in range((500 if ctx.quick() else 15000) * scale):
         if i % 12 == 11:
             cfg, kind = G.gen_malformed_config(rng); changes = G.gen_changes(rng, cfg, rng.randint(0, 8)); ctx.count("malformed_" + kind)
